@@ -120,6 +120,8 @@ CORE = ["a", "é", "%C3%A9", "%FF", "%2F", "%3F", "%23", "%25", "%26", "%3D", " 
 EXTRA = ["%2B", "%", "41", "&", "=", "%C3", "%A9", "%20", "%00", "\x7f", "𝄞", "%f0%9d%84%9e", ":", "@"]
 ALPHA = CORE + EXTRA
 FUSION = ["%", "a", "%41", "4", "%25", "%2", "%C3%A9"]
+# truncated multi-byte prefixes of length >= 2, overlong and surrogate encodings, next to valid text
+TRUNC = ["%E2%82", "%F0%9F", "%F0%9F%98", "%C0%AF", "%ED%A0%80", "%e2%82", "%E2%82%AC", "a", "é", "%41", "/", "%82"]
 # atoms only legal in some components ('?' and '#' would start the next component)
 QUERY_ONLY = ["?"]
 FRAG_ONLY = ["?", "#"]
@@ -177,6 +179,12 @@ def iri_cases(tier):
         yield ("fusion", "http://example.com/p#" + s, fixed)
         if s:   # an empty userinfo is dropped, which is normalisation
             yield ("fusion", f"http://{s}@example.com/", fixed)
+    for s in gen.strings(TRUNC, 4 if T else 3, 1):
+        yield ("trunc", "http://example.com/" + s, fixed)
+        yield ("trunc", "http://example.com/p?" + s, fixed)
+        yield ("trunc", "http://example.com/p#" + s, fixed)
+        if "/" not in s:
+            yield ("trunc", f"http://{s}@example.com/", fixed)
     d = 2 if T else 1
     comp = list(gen.strings(CORE, d))
     for p in comp:
@@ -263,6 +271,8 @@ def check_iri(x: str, row):
 
 P_ATOMS = ["a", "é", " ", ";", "+", ":", "@", "𝄞", "/", "%C3%A9", "名", "~", ".", "&", "=", "%20", "!", "%3F", "%23", "%2B", "%25", "%2541", "%252F"]
 Q_ATOMS = ["", "a", "é", " ", "&", "=", "+", "%", "𝄞", "#", ";", "?"]
+# text that looks like an escape: mapping keys / values are literal text and must come back as they are
+Q_ESC = ["%41", "%25", "%C3%A9", "%zz", "%2", "%E2%82", "%", "100%25", "50% off", "%2541", "a", "é", ""]
 # (base_url given, scheme, host as the Host header may carry it (ascii, unicode), root path)
 BASES = [
     ("http://localhost/", "http", ("localhost", "localhost"), ""),
@@ -272,6 +282,7 @@ BASES = [
     ("https://[::1]:8000/", "https", ("[::1]:8000", "[::1]:8000"), ""),
     ("https://example.com:80/", "https", ("example.com:80", "example.com:80"), ""),
     ("http://example.com:443/r", "http", ("example.com:443", "example.com:443"), "/r"),
+    ("http://localhost/r%2541/%25zz", "http", ("localhost", "localhost"), "/r%41/%zz"),
 ]
 
 
@@ -294,10 +305,68 @@ def env_cases(tier):
             for p1 in pairs:
                 for p2 in pairs:
                     yield ("/" + s, (p1, p2), b)
+    for b in (0, 3, len(BASES) - 1):
+        for k in Q_ESC:
+            for v in Q_ESC:
+                yield ("/p", ((k, v),), b)
+                yield ("/%2541", ((k, v), (k, "2"), ("z", v)), b)
     # longer values on one pair
     for k in gen.strings(Q_ATOMS, 2):
         for v in gen.strings(Q_ATOMS, 2 if T else 1):
             yield ("/p", ((k, v),), 1)
+
+
+RAWQ_ATOMS = ["%E2%82", "%F0%9F%98", "%C0%AF", "%ED%A0%80", "%FF", "a", "%41", "%C3%A9", "+", "%e2%82%ac", "%2541", "%zz"]
+
+
+def ref_query_decode(s: str) -> str:
+    """What a raw query-string component means as text: '+' is a blank, valid escapes of valid UTF-8 are the
+    characters, every byte that is not part of valid UTF-8 stays a (upper-case) escape, malformed escapes stay."""
+    from urllib.parse import unquote_to_bytes
+
+    data = unquote_to_bytes(s.replace("+", " "))
+    out = []
+    i = 0
+    while i < len(data):
+        for n in (1, 2, 3, 4):
+            try:
+                out.append(data[i : i + n].decode("utf-8"))
+                i += n
+                break
+            except UnicodeDecodeError:
+                continue
+        else:
+            out.append("%%%02X" % data[i])
+            i += 1
+    return "".join(out)
+
+
+def rawq_cases(tier):
+    for v in gen.strings(RAWQ_ATOMS, 3 if tier == "thorough" else 2, 1):
+        yield v
+
+
+def check_rawq(v: str):
+    """Request.args / full_path / url for a raw query string k=<v>&<v>=1 set by a server."""
+    env = {"REQUEST_METHOD": "GET", "wsgi.url_scheme": "http", "SERVER_NAME": "h", "SERVER_PORT": "80",
+           "HTTP_HOST": "h", "SCRIPT_NAME": "", "PATH_INFO": "/p", "QUERY_STRING": f"k={v}&{v}=1"}
+    fails = []
+    try:
+        req = Request(env)
+        got = {"args": list(req.args.items(multi=True)), "url": req.url, "wsgi": wsgi_get_current_url(env)}
+    except Exception as e:  # noqa: BLE001
+        return [("rawq:exception", repr(e))], {}
+    want = [("k", ref_query_decode(v)), (ref_query_decode(v), "1")]
+    if got["args"] != want:
+        fails.append(("rawq:args", (want, got["args"])))
+    for k in ("url", "wsgi"):
+        try:
+            q = meaning(got[k])["query"]
+        except Exception as e:  # noqa: BLE001
+            q = repr(e)
+        if q != canon(env["QUERY_STRING"], "&=+"):
+            fails.append(("rawq:" + k, (env["QUERY_STRING"], got[k])))
+    return fails, got
 
 
 def grouped(pairs):
@@ -542,11 +611,12 @@ def check_host(scheme, header, server, port):
 
 # ------------------------------------------------------------------ dispatcher space
 
-MOUNTS = ["/a", "/a/b", "/ab", "/a/b/c", "/a/", "/é", "", "/"]
+MOUNTS = ["/a", "/a/b", "/ab", "/a/b/c", "/a/", "/é", "", "/", "/%41"]
 SEGS = ["a", "b", "ab", "c", "", "é"]
 SCRIPTS = ["", "/root", None]          # None: the environ has no SCRIPT_NAME key (and no PATH_INFO key if empty)
 
 
+ESC_SEGS = ["%41", "A"]     # the dispatcher compares the environ strings as they are: '/%41' is not '/A'
 RAW_SEGS = ["\udcff", "\udcc0\udcaf", "é\udcc3"]   # lone surrogates stand for raw bytes that are not valid UTF-8
 
 
@@ -562,8 +632,8 @@ def disp_paths(tier):
             yield "/" + "/".join(t)
     # raw PATH_INFO bytes that are not valid UTF-8 (the dispatcher works on the environ strings as they are)
     for n in range(1, (4 if tier == "thorough" else 3) + 1):
-        for t in itertools.product(SEGS + RAW_SEGS, repeat=n):
-            if any(x in RAW_SEGS for x in t):
+        for t in itertools.product(SEGS + RAW_SEGS + ESC_SEGS, repeat=n):
+            if any(x in RAW_SEGS or x in ESC_SEGS for x in t):
                 yield "/" + "/".join(t)
 
 
@@ -614,7 +684,7 @@ def check_disp(mounts, path: str, script: str):
 
 # ------------------------------------------------------------------ units
 
-NSHARD = {"iri": 64, "env": 64, "disp": 24, "host": 1}
+NSHARD = {"iri": 64, "env": 64, "disp": 32, "host": 1, "rawq": 1}
 
 
 def units(tier):
@@ -665,6 +735,18 @@ def run_unit(unit, R, tier):
             for sig, detail in fails:
                 R.violation(sig, {"kind": "env", "sig": sig, "path": path, "query": q, "base": b,
                                   "base_url": BASES[b][0], "detail": detail, "got": got})
+    elif kind == "rawq":
+        for v in rawq_cases(tier):
+            R.ev()
+            R.count("rawq_cases")
+            fails, got = check_rawq(v)
+            if got and got["args"][0][1] != v:
+                R.nontrivial(("rawq", v))
+            if got and "%" in got["args"][0][1]:
+                R.use("rawq:kept-escape")
+            R.outcome(("rawq", bool(fails)))
+            for sig, detail in fails:
+                R.violation(sig, {"kind": "rawq", "sig": sig, "value": v, "detail": detail, "got": got})
     elif kind == "host":
         for case in host_cases():
             R.ev()
@@ -704,9 +786,9 @@ def run_unit(unit, R, tier):
 
 
 def finalize(R, tier):
-    need = {"iri:net", "iri:path", "iri:query", "iri:fragment", "iri:cross", "iri:userinfo", "iri:noscheme", "iri:fusion",
+    need = {"iri:net", "iri:path", "iri:query", "iri:fragment", "iri:cross", "iri:userinfo", "iri:noscheme", "iri:fusion", "iri:trunc",
             "iri:quoted-something", "iri:unquoted-something", "iri:kept-escape", "iri:normalised(u2!=u)",
-            "env:query", "env:noquery", "host:with-header", "host:from-server", "disp:mounted", "disp:default", "disp:several-mounts-match", "disp:invalid-utf8-path"}
+            "env:query", "env:noquery", "host:with-header", "host:from-server", "rawq:kept-escape", "disp:mounted", "disp:default", "disp:several-mounts-match", "disp:invalid-utf8-path"}
     need |= {"env:base%d" % b for b in range(len(BASES))}
     missing = need - R.used
     if missing:
@@ -741,6 +823,9 @@ def replay(rec):
         q = None if q is None else tuple(tuple(p) for p in q)
         fails, got = check_env(rec["path"], q, rec["base"])
         text = f"EnvironBuilder(path={rec['path']!r}, query_string={q!r}, base_url={BASES[rec['base']][0]!r})\nrequest: {got}"
+    elif kind == "rawq":
+        fails, got = check_rawq(rec["value"])
+        text = f"QUERY_STRING = 'k={rec['value']}&{rec['value']}=1'\n{got}"
     elif kind == "host":
         fails, got = check_host(*rec["case"])
         text = f"scheme, Host header, SERVER_NAME, SERVER_PORT = {tuple(rec['case'])!r}\n{got}"
